@@ -37,6 +37,18 @@ def run(op):
             return {"ok": list(XmlTime.from_string(op["s"]))}
         if k == "datetime_from_string":
             return {"ok": list(XmlDateTime.from_string(op["s"]))}
+        if k.endswith("_replace"):
+            cls_, names = {"date_replace": (XmlDate, ("year", "month", "day")),
+                           "time_replace": (XmlTime, ("hour", "minute", "second", "fractional_second")),
+                           "datetime_replace": (XmlDateTime, ("year", "month", "day", "hour", "minute", "second",
+                                                              "fractional_second"))}[k]
+            kw = {n: a for n, a in zip(names, op["args"]) if a is not None}
+            if op["off"] != ["keep"]:
+                kw["offset"] = op["off"][0]
+            out = cls_(*op["v"]).replace(**kw)
+            if type(out) is not cls_:
+                return {"err": "type " + type(out).__name__}
+            return {"ok": list(out)}
         if k == "date_str":
             return {"ok": str(XmlDate(*op["v"]))}
         if k == "time_str":
